@@ -89,8 +89,10 @@ FN_FORMS = {
     "di":  (True,  False, True,  False),
     "dsi": (True,  True,  True,  False),
     "dei": (True,  False, True,  True),
+    "bp":  (False, False, False, False),      # block scope:  int g(void){ int f(void); return f(); }
 }
-FN_ORDER = ["p", "ps", "pi", "psi", "pei", "d", "ds", "di", "dsi", "dei"]
+FN_BLOCK = ("bp",)
+FN_ORDER = ["p", "ps", "pi", "psi", "pei", "d", "ds", "di", "dsi", "dei", "bp"]
 
 
 def fn_spec(k):
@@ -108,6 +110,7 @@ def fn_model(seq):
     all_inline = True
     any_inline = False
     any_plain_or_extern = False
+    nfile = 0
     for i, k in enumerate(seq):
         d, st, inl, ext = FN_FORMS[k]
         if st:
@@ -117,6 +120,9 @@ def fn_model(seq):
         if link and lk != link:
             return {"valid": False, "why": "6.2.2p7 static after non-static"}
         link = lk
+        if k in FN_BLOCK:
+            continue                    # 6.7.4p7 speaks of the file scope declarations only
+        nfile += 1
         if d:
             ndef += 1
             defpos = i
@@ -131,7 +137,11 @@ def fn_model(seq):
     inline_only = bool(link == "external" and ndef and not any_plain_or_extern)
     return {"valid": True, "why": "", "linkage": link, "has_def": bool(ndef), "defpos": defpos,
             "extdef": bool(link == "external" and ndef and not inline_only), "inline_only": inline_only,
-            "all_inline": all_inline, "any_inline": any_inline}
+            "all_inline": bool(all_inline and nfile), "any_inline": any_inline, "nfile": nfile,
+            "first_file": next((i for i, k in enumerate(seq) if k not in FN_BLOCK), None),
+            # gcc counts a block-scope declaration that precedes the inline definition as a non-inline declaration
+            # (6.7.4p7 speaks of file scope declarations only): implementations differ, not judged
+            "contested": bool(inline_only and seq and seq[0] in FN_BLOCK)}
 
 
 def fn_class(m):
@@ -329,7 +339,11 @@ LINK_OBJ = {                 # key -> (text with %d = unit index, provides, uses
     "I":  ("def", True),               # int v = 5;     + access
     "S":  ("static", True),            # static int v = 20+unit; + access
     "bE": ("blockextern", True),       # access through a block-scope extern only
+    "tE": ("tls-extern", True),        # extern _Thread_local int v;
+    "tT": ("tls-tentative", True),     # _Thread_local int v;
+    "tI": ("tls-def", True),           # _Thread_local int v = 5;
 }
+LINK_OBJ_BASIC = ["-", "E", "T", "I", "S", "bE"]
 LINK_FN = {
     "-":   "none",
     "p":   "proto",            # int f(void);  + call
@@ -345,6 +359,14 @@ def link_model(objs, fns, fcommon):
     """objs/fns: per-unit form keys.  Returns (verdict, reason): verdict in 'ok' | 'fail' | 'undefined'.
     'fail' = the set violates the one-definition rule in a way the linker must diagnose under the given option;
     'undefined' = C11 leaves it undefined and the toolchain need not diagnose (not judged)."""
+    tls = [o for o in objs if o in ("tE", "tT", "tI")]
+    if tls and [o for o in objs if o in ("E", "T", "I", "bE")]:
+        return "undefined", "thread-local in one unit, not in another (6.2.7p2)"
+    if tls:
+        if sum(1 for o in tls if o != "tE") >= 2:
+            return "fail", "two definitions of the thread-local object (no common blocks for TLS)"
+        if all(o == "tE" for o in tls):
+            return "fail", "thread-local object used but never defined"
     D = sum(1 for o in objs if o == "I")
     T = sum(1 for o in objs if o == "T")
     U = sum(1 for o in objs if o in ("E", "bE"))
@@ -368,7 +390,7 @@ def link_model(objs, fns, fcommon):
 
 def link_expected(objs, fns):
     """Expected output lines of the driver for a well-formed set (see checks/c15.py link_unit_source)."""
-    D = any(o == "I" for o in objs)
+    D = any(o in ("I", "tI") for o in objs)
     shared = 5 if D else 0
     own = [20 + i for i in range(len(objs))]
     out = []
